@@ -1,6 +1,7 @@
 import SqlProofs.AccessorSpec
 import SqlModel.Generated.Tables
 import SqlModel.Splitter
+import SqlProofs.WhereExtent
 /-!
 # C13 — clause nodes cover exactly the clause as written
 
@@ -32,5 +33,12 @@ theorem get_cases_total : type_of% @getCases_total := @getCases_total
 theorem get_parameters_error_iff : type_of% @getParameters_error_iff := @getParameters_error_iff
 theorem comparison_left_error_iff : type_of% @comparisonLeft_error_iff := @comparisonLeft_error_iff
 theorem comparison_right_error_iff : type_of% @comparisonRight_error_iff := @comparisonRight_error_iff
+
+/-- **Where extent**: the first WHERE keyword of a list heads a Where group that ends just before the first later closing keyword of the generated `Where.M_CLOSE`, or — without one — at the
+last groupable child (inside a parenthesis: before the `)`); every iteration of the loop does the same for the next WHERE still at this level; afterwards no WHERE keyword is left ungrouped -/
+theorem where_extent_to_closer : type_of% @where_first_extent_close := @where_first_extent_close
+theorem where_extent_to_end : type_of% @where_first_extent_end := @where_first_extent_end
+theorem where_each_iteration : type_of% @whereLoop_iter := @whereLoop_iter
+theorem where_none_left_ungrouped : type_of% @where_none_left := @where_none_left
 
 end Sql.C13
